@@ -206,6 +206,13 @@ func (x *Exec) valueOfObj(st *State, obj types.Object, name string) *Value {
 	case *types.Const:
 		return x.constValue(o.Val(), o.Type())
 	case *types.Var:
+		if r, ok := st.addr[o]; ok {
+			// address-taken local: its value lives in the heap
+			if kindOf(o.Type()) == kStruct {
+				return x.loadStruct(st, r, o.Type())
+			}
+			return x.loadCell(st, r, o.Type())
+		}
 		if v, ok := st.env[o]; ok {
 			return v
 		}
@@ -339,11 +346,11 @@ func (x *Exec) evalAddrOf(st *State, e *ast.UnaryExpr) *Value {
 	case *ast.Ident:
 		obj := x.eng.info.Uses[inner]
 		if obj != nil {
-			// address of a local: move it to the heap; later direct uses of the
-			// variable read the copy (aliasing not tracked) -> flagged
-			if ref, ok := x.addrTaken[obj]; ok {
+			if ref, ok := st.addr[obj]; ok {
 				return scalarV(t, ref)
 			}
+			// not yet materialised (parameter or variable defined before the
+			// engine saw it): move it to the heap now
 			v := x.valueOfObj(st, obj, inner.Name)
 			r := x.allocRef(st)
 			if kindOf(v.T) == kStruct {
@@ -351,8 +358,8 @@ func (x *Exec) evalAddrOf(st *State, e *ast.UnaryExpr) *Value {
 			} else {
 				x.storeCell(st, r, v.T, v)
 			}
-			x.addrTaken[obj] = r
-			x.note("address-of-local:" + inner.Name)
+			st.addr[obj] = r
+			delete(st.env, obj)
 			return scalarV(t, r)
 		}
 	case *ast.SelectorExpr:
@@ -535,6 +542,20 @@ func (x *Exec) binary(st *State, op token.Token, a, c *Value, rt types.Type, at 
 		}
 	case kInt, kTime:
 		return x.intBinary(st, op, a, c, at)
+	case kRef:
+		// ordering of references (spec only: freshness arguments)
+		ra, rc := a.scalar(), c.scalar()
+		bt := types.Typ[types.Bool]
+		switch op {
+		case token.LSS:
+			return scalarV(bt, x.b.Lt(ra, rc, true))
+		case token.LEQ:
+			return scalarV(bt, x.b.Le(ra, rc, true))
+		case token.GTR:
+			return scalarV(bt, x.b.Gt(ra, rc, true))
+		case token.GEQ:
+			return scalarV(bt, x.b.Ge(ra, rc, true))
+		}
 	}
 	x.fail("unsupported binary %s on %v", op, t)
 	return a
